@@ -11,8 +11,8 @@ FUNCS = ["MessageStore.processMessageLoop", "MessageStore.getOrCreateDeviceCache
          "MessageStore.processDeviceMessagesInQueue", "MessageStore.addToMessageQueue", "MessageStore.CacheSizeForDevicePK"]
 
 
-def S(arr, regs, known, cancel=False, win=0):
-    return dict(arr=arr, regs=regs, known=known, cancel=cancel, win=win)
+def S(arr, regs, known, cancel=False, win=0, regat=None):
+    return dict(arr=arr, regs=regs, known=known, cancel=cancel, win=win, regat=regat or {})
 
 
 def scenarios(tier):
@@ -30,6 +30,11 @@ def scenarios(tier):
         S(["a4", "a1", "a2"], [], ["d1"], win=2),   # a4 fails twice
         S(["a3", "a1"], ["d1"], [], win=2),    # the same with the key registered at any moment
         S(["a4", "a1"], [], ["d1"], win=2),    # a4 legitimately stays parked (still beyond the window)
+        # late joiner: the sender announced its chain key after sealing a1, so a1 can never be opened - the messages
+        # parked behind it must be released all the same
+        S(["a1", "a2"], ["d1"], [], regat={"d1": 1}),
+        S(["a2", "a1", "a3"], ["d1"], [], regat={"d1": 1}),
+        S(["a1", "a2"], [], ["d1"], regat={"d1": 1}),
     ]
     if tier != "quick":
         s += [S(["a1", "a2", "a3"], ["d1"], []), S(["a3", "a1", "a2"], ["d1"], []), S(["a1", "b1", "a2"], ["d1", "d2"], []),
@@ -42,8 +47,10 @@ def tla_set(xs):
 
 
 def tla_scen(s):
-    return '[arr |-> <<%s>>, regs |-> %s, known |-> %s, cancel |-> %s, win |-> %d]' % (
-        ", ".join('"%s"' % a for a in s["arr"]), tla_set(s["regs"]), tla_set(s["known"]), "TRUE" if s["cancel"] else "FALSE", s.get("win", 0))
+    ra = s.get("regat") or {}
+    regat = ("[" + ", ".join('%s |-> %d' % kv for kv in sorted(ra.items())) + "]") if ra else "[d \\in {} |-> 0]"
+    return '[arr |-> <<%s>>, regs |-> %s, known |-> %s, cancel |-> %s, win |-> %d, regat |-> %s]' % (
+        ", ".join('"%s"' % a for a in s["arr"]), tla_set(s["regs"]), tla_set(s["known"]), "TRUE" if s["cancel"] else "FALSE", s.get("win", 0), regat)
 
 
 DEFS0 = {"DevOf": "[" + ", ".join('%s |-> "%s"' % kv for kv in DEVOF.items()) + "]",
@@ -60,7 +67,12 @@ def gen(ctx):
                     allow_violation=True, workers=4, timeout=1500)
         design["park_under_lock" if pul == "TRUE" else "park_after_unlock"] = r.violated or "ok"
         if pul == "TRUE" and not r.ok:
-            raise vf.Infra("MessagePipeline.tla (park under lock) must satisfy C08: %s" % r.violated)
+            raise vf.Infra("MessagePipeline.tla (park under lock, whole device queue handed back) must satisfy C08: %s" % r.violated)
+    r = ctx.tlc("MessagePipeline", "MC_MessagePipeline.cfg", name="mc_requeue_one", consts={"RequeueAll": "FALSE"}, defs=alldefs,
+                allow_violation=True, workers=4, timeout=1500, count=False)
+    design["requeue_lowest_only"] = r.violated or "ok"
+    if r.ok:
+        raise vf.Infra("model self-test: handing back only the lowest-counter message should strand a late joiner's messages in MessagePipeline.tla")
     ctx.extra["design_level"] = design
     scripts = []
     per = 2500 if quick else 25000
@@ -114,7 +126,7 @@ def to_pc(e):
     elif "PriorityQueue.Add:lock" in to:
         pc = "PA"
     elif "PriorityQueue.NextAll:lock" in to:
-        pc = "PF"
+        pc = "PF" if t == "loop" else "P2"
     elif "PriorityQueue.Next:lock" in to:
         pc = "P2"
     elif "ProcessMessageQueueForDevicePK:lock" in to:
@@ -146,7 +158,7 @@ def run(ctx, replay=None):
     scs = scenarios(ctx.tier)
     cdefs = dict(DEFS0, Scenarios="<<" + ", ".join(tla_scen(x) for x in scs) + ">>")
     acc, rejects = vf.validate_blocks(ctx, MON, events, "pipeline", conf=("TracePipeline", "Trace_Pipeline.cfg"), defs=cdefs,
-                                      conf_consts={"ParkUnderLock": "TRUE", "SignalBuffered": "TRUE"}, conf_map=to_pc)
+                                      conf_consts={"ParkUnderLock": "TRUE", "SignalBuffered": "TRUE", "RequeueAll": "TRUE"}, conf_map=to_pc)
     ctx.evaluations += len(scripts)
     blocks = dict(vf.split_traces(events))
     distinct, nontrivial = set(), set()
@@ -174,7 +186,7 @@ def run(ctx, replay=None):
             what = "message pipeline breaks C08 at step %s: %s" % (rj["at"], json.dumps(line, sort_keys=True)[:400])
         ctx.classify(key, what, {"script": sc, "observed": rj["events"], "rejected_line": line})
     for s in scripts[:1]:
-        ctx.add_samples([{"scenario": {k: s["cfg"].get(k) for k in ("arr", "regs", "known", "cancel", "win")},
+        ctx.add_samples([{"scenario": {k: s["cfg"].get(k) for k in ("arr", "regs", "known", "cancel", "win", "regat")},
                           "schedule": [x["d"] for x in s["steps"]], "observed_final": blocks.get(s["id"], [])[-1:]}], limit=2)
     ctx.assumptions += ["hand-built MessageStore (real secret store, queues, event bus; no orbit-db): entries are fed through addToMessageQueue as the store's subscriber does",
                         "scenarios with win=2 exercise the retry of a message that overtook its predecessors beyond the ratchet window (C02's formula); the other scenarios stay inside the default window; interleavings at lock/channel operations only"]
